@@ -40,6 +40,10 @@ func main() {
 		os.Exit(2)
 	}
 	cmd := os.Args[1]
+	if cmd == "actchild" && len(os.Args) == 3 { // C20: re-executed child, see activation.go
+		actChild(os.Args[2])
+		return
+	}
 	fs := flag.NewFlagSet(cmd, flag.ExitOnError)
 	seed := fs.Uint64("seed", 1, "seed")
 	n := fs.Int("n", 1000, "number of cases")
